@@ -1250,6 +1250,15 @@ theorem greedy_maxmin_partial {v : α → Nat} (K : Nat)
   exact arith_final hk (run_maxmin_of_mixed K hmix k hk hkK (sortDesc v items) (Part.sortDesc_sorted v items) W Q
     hQk (hQp.trans ((Part.sortDesc_perm v items).map v).symm) hQ)
 
+/-- non-vacuity of `greedy_maxmin_partial`: for `K = 3` its hypothesis is provable (`run_maxmin_two`,
+    `run_maxmin_three`) -/
+example : (3 * 3 - 1) * 10 ≤ (4 * 3 - 2) * minL (greedy id 3 [5, 5, 4, 4, 3, 3, 3, 3]).sums :=
+  greedy_maxmin_partial (v := id) 3 (fun k h2 hK P x W Q hS hQk hQp hQ _ _ _ _ => by
+    have hk23 : k = 2 ∨ k = 3 := by omega
+    rcases hk23 with rfl | rfl
+    · exact run_maxmin_two _ hS W Q hQk hQp hQ
+    · exact run_maxmin_three _ hS W Q hQk hQp hQ) (by decide) (by decide) optmin_55443333
+
 /-- **Max-min, ratio `3/4`, for at most three bins** (Deuermeyer–Friesen–Langston).
 
     Requested: `greedy_maxmin_partial_three_quarters` for every `k`, i.e.
@@ -1267,3 +1276,33 @@ example : 3 * 10 ≤ 4 * minL (greedy id 3 [5, 5, 4, 4, 3, 3, 3, 3]).sums :=
   greedy_maxmin_partial_three_quarters (v := id) (by decide) (by decide) optmin_55443333
 
 end Prtpy.MaxMin3
+
+/-
+Axiom audit (Lean 4.33.0; output observed with the commands appended to a copy of this file):
+
+#print axioms Prtpy.MaxMin3.greedy_maxmin_two
+  -- 'Prtpy.MaxMin3.greedy_maxmin_two' depends on axioms: [propext, Classical.choice, Quot.sound]
+#print axioms Prtpy.MaxMin3.greedy_maxmin_three
+  -- 'Prtpy.MaxMin3.greedy_maxmin_three' depends on axioms: [propext, Classical.choice, Quot.sound]
+#print axioms Prtpy.MaxMin3.greedy_maxmin_partial
+  -- 'Prtpy.MaxMin3.greedy_maxmin_partial' depends on axioms: [propext, Classical.choice, Quot.sound]
+#print axioms Prtpy.MaxMin3.greedy_maxmin_partial_large
+  -- 'Prtpy.MaxMin3.greedy_maxmin_partial_large' depends on axioms: [propext, Classical.choice, Quot.sound]
+#print axioms Prtpy.MaxMin3.greedy_maxmin_partial_half_plus
+  -- 'Prtpy.MaxMin3.greedy_maxmin_partial_half_plus' depends on axioms: [propext, Classical.choice, Quot.sound]
+#print axioms Prtpy.MaxMin3.greedy_maxmin_partial_three_quarters
+  -- 'Prtpy.MaxMin3.greedy_maxmin_partial_three_quarters' depends on axioms: [propext, Classical.choice, Quot.sound]
+#print axioms Prtpy.MaxMin3.run_maxmin_two
+  -- 'Prtpy.MaxMin3.run_maxmin_two' depends on axioms: [propext, Classical.choice, Quot.sound]
+#print axioms Prtpy.MaxMin3.run_maxmin_three
+  -- 'Prtpy.MaxMin3.run_maxmin_three' depends on axioms: [propext, Classical.choice, Quot.sound]
+#print axioms Prtpy.MaxMin3.run_maxmin_of_mixed
+  -- 'Prtpy.MaxMin3.run_maxmin_of_mixed' depends on axioms: [propext, Classical.choice, Quot.sound]
+#print axioms Prtpy.MaxMin3.run_large
+  -- 'Prtpy.MaxMin3.run_large' depends on axioms: [propext, Classical.choice, Quot.sound]
+
+Validation by evaluation (scratch file, not part of the build): with
+  `checkOne k vals := (3k−1)·(−optValue .maxSmallest k vals) ≤ (4k−2)·minL (greedy id k vals).sums`
+`#eval` found no violating multiset among all multisets of at most 9 values `≤ 10`, for `k = 2, 3, 4` (23 minutes);
+an independent Python search over the same range found none either.
+-/
